@@ -156,6 +156,8 @@ func C14(c *core.Ctx) {
 	for _, mb := range collisionMembers() {
 		runCollisionMember(c, mb, rules, 4096)
 	}
+	// root type names come from the file name / title / mapping, never from state keyed by something else: two files of one run get two root types
+	ruleMultiSel(c, ruleSet("A-ROUTE", "A-TYP", "A-MAP"), 2, "two files with the same $id")
 }
 
 // collisionMembers: families generated with identifier-coincidence forking.
